@@ -1775,7 +1775,7 @@ mutant("c04-local-drops-excluded-rooms", "C04", "C04-D6", "adapter/broadcast_ope
 	n.flags = BroadcastFlags{Compress: b.flags.Compress, Local: true}
 	return n""")
 mutant("c05-active-only-after-connect-reply", "C05", "C05-D9", "client_socket.go",
-       "	s.activeMu.Lock()\n	s.active = true\n	s.manager.openHandlers.onSubEvent(&openFunc)", "	s.activeMu.Lock()\n	s.manager.openHandlers.onSubEvent(&openFunc)")
+       "	s.active = true\n	s.manager.openHandlers.onSubEvent(&openFunc)", "	s.manager.openHandlers.onSubEvent(&openFunc)")
 MUTANTS[-1]["then"] = ("	s.debug.Log(\"Socket connected\")\n", "	s.activeMu.Lock()\n	s.active = true\n	s.activeMu.Unlock()\n	s.debug.Log(\"Socket connected\")\n")
 mutant("c05-frames-enqueued-one-by-one", "C05", "C05-D9", "server_conn.go",
        "		c.packet(packets...)\n", "		for _, pk := range packets {\n			c.packet(pk)\n		}\n")
